@@ -286,6 +286,7 @@ class Sim:
         self.finished = False
         self.park_requests = {}
         self.stall_requests = {}
+        self.stall_plan = []      # [role prefix, tag prefix | '.' (any stub point) | None (any point), nth match, duration]
         self.stalls = 0
         self.in_pred = False
         self.wake_preds = {}
@@ -510,6 +511,16 @@ class Sim:
             self._try_interrupt()
         for h in self.step_hooks:
             h(self)
+        if self.stall_plan:
+            for sp in self.stall_plan:
+                if cur.role.startswith(sp[0]) and (
+                        sp[1] is None or ('.' in tag if sp[1] == '.' else tag.startswith(sp[1]))):
+                    if sp[2] > 0:
+                        sp[2] -= 1
+                        continue
+                    self.stall_plan.remove(sp)
+                    self.stall_requests[cur.tid] = sp[3]
+                    break
         if self.stall_requests and cur.tid in self.stall_requests:
             d = self.stall_requests.pop(cur.tid)
             self.stalls += 1
